@@ -5,6 +5,9 @@ Roots:   R1 module-level names; R2 parameters whose default is a mutable literal
 Sites:   statements inside function bodies (methods and nested functions included; module and class bodies run at import)
          that subscript-assign / attribute-assign / delete / aug-assign / call a mutating method on a root, rebind a
          `global`, or setattr() on a parameter.
+         A local name bound to a module-level / global object (`d = TABLE`, `d = A if c else B`) is an alias of that object.
+         Every use of a memoising helper (functools.lru_cache / cache / cached_property and the like, as decorator or call) is a
+         site of its own ("memo:<name>"): the memo is shared state that outlives the call, and what it hands out may be mutated later.
 Also:    for every function containing a site, where it is called from (module level only = import time)."""
 import ast
 import os
@@ -15,6 +18,7 @@ import common as C
 
 MUTATORS = {"append", "extend", "update", "add", "pop", "clear", "remove", "insert", "setdefault", "sort", "reverse", "discard", "popitem", "appendleft", "popleft"}
 MUTABLE_CALLS = {"dict", "list", "set", "deque", "defaultdict", "OrderedDict", "bytearray"}
+MEMO_NAMES = {"lru_cache", "cache", "cached_property", "memoize", "memoized", "memoise", "memo", "singledispatch", "cached"}
 
 
 def is_mutable_default(e):
@@ -107,6 +111,11 @@ def scan():
                 walk_calls(ch, inner)
         walk_calls(tree, False)
 
+        for n in ast.walk(tree):
+            nm = n.id if isinstance(n, ast.Name) else n.attr if isinstance(n, ast.Attribute) else None
+            if nm in MEMO_NAMES and isinstance(getattr(n, "ctx", None), ast.Load):
+                sites.append((f"{mod}:line{n.lineno}", f"memo:{nm}", "use"))
+
         def visit_fn(fn, qual, cls_aliases, enclosing_params):
             q = f"{qual}.{fn.name}" if qual else fn.name
             full = f"{mod}:{q}"
@@ -123,6 +132,14 @@ def scan():
                     mut_params.add(arg.arg)
             loc, glob = local_names(fn)
             params = set(x.arg for x in pos + a.kwonlyargs)
+            # local aliases of module-level objects: x = G | x = G if c else H  (G not itself a local)
+            alias = {}
+            for n in ast.walk(fn):
+                if isinstance(n, ast.Assign) and len(n.targets) == 1 and isinstance(n.targets[0], ast.Name):
+                    vals = [n.value.body, n.value.orelse] if isinstance(n.value, ast.IfExp) else [n.value]
+                    for v in vals:
+                        if isinstance(v, ast.Name) and v.id in top and v.id not in loc and v.id not in params:
+                            alias.setdefault(n.targets[0].id, v.id)
 
             def is_root(r):
                 if r is None:
@@ -136,6 +153,8 @@ def scan():
                     return f"arg:{nm}"
                 if nm in glob or (nm in top and nm not in loc):
                     return f"global:{nm}"
+                if nm in alias:
+                    return f"global:{alias[nm]}"
                 return None
 
             def add(target, kind):
